@@ -281,6 +281,13 @@ func (x *X) FailSite(clause string, tags []string, site string, format string, a
 	panic(abortRun{})
 }
 
+// familyCap: see VERIF_FAMILY_CAP (never set by the registered commands)
+var familyCap = func() int {
+	n := 0
+	fmt.Sscan(os.Getenv("VERIF_FAMILY_CAP"), &n)
+	return n
+}()
+
 type ExploreOpts struct {
 	ShardDepth int    // number of leading choice points hashed for sharding (default 1)
 	Bound      string // description of the bound explored
@@ -408,6 +415,12 @@ func (x *X) Explore(family string, opts ExploreOpts, body func(c *Chooser)) {
 				fs.Cap = "stopped after violations"
 				panic(stopAll{})
 			}
+		}
+		if familyCap > 0 && fs.Runs >= int64(familyCap) {
+			// experiments only (VERIF_FAMILY_CAP): smoke-test every family of a tier for a bounded number of executions
+			fs.Exhaustive = false
+			fs.Cap = fmt.Sprintf("experiment cap of %d executions per worker", familyCap)
+			return
 		}
 		// advance odometer
 		path, lim = c.path[:c.pos], c.lim[:c.pos]
